@@ -471,7 +471,7 @@ impl Ctx {
                             failure_persistence: None,
                             rng_algorithm: RngAlgorithm::ChaCha,
                             rng_seed: RngSeed::Fixed(seed ^ (shard << 32) ^ part_hash),
-                            max_shrink_iters: 4000,
+                            max_shrink_iters: 1500,
                             max_shrink_time: 0,
                             max_global_rejects: 1 << 20,
                             max_local_rejects: 1 << 16,
@@ -934,4 +934,29 @@ pub fn pipeline_text(p: &rssl::CompiledPipeline) -> String {
 pub fn pick<'a, T>(items: &'a [T], raw: u16) -> &'a T {
     let i = ((raw as usize) * items.len()) >> 16;
     &items[i.min(items.len() - 1)]
+}
+
+/// Everything observable about one compiled pipeline, as text (used to compare results).
+pub fn pipeline_snapshot(p: &rssl::CompiledPipeline) -> String {
+    let stages: Vec<String> = p.stages.iter().map(|s| format!("{:?}/{}/{:?}", s.stage, s.entry_point, s.thread_group_size)).collect();
+    format!(
+        "DATA:\n{}\nSTAGES: {:?}\nMETADATA: {:?}\nSTATE: {:?}\n",
+        String::from_utf8_lossy(&p.data),
+        stages,
+        p.metadata,
+        p.graphics_pipeline_state
+    )
+}
+
+/// Snapshot of a whole compile() result: Ok(list of pipeline snapshots) or Err(diagnostic).
+pub fn result_snapshot(r: &Result<Vec<rssl::CompiledPipeline>, String>) -> Result<Vec<String>, String> {
+    match r {
+        Ok(ps) => Ok(ps.iter().map(pipeline_snapshot).collect()),
+        Err(e) => Err(e.clone()),
+    }
+}
+
+/// Is this diagnostic produced by a back end (exporter) rather than the shared front end?
+pub fn is_backend_error(msg: &str) -> bool {
+    msg.contains("hlsl generate:") || msg.contains("hlsl format:") || msg.contains("metal generate:") || msg.contains("metal format:")
 }
